@@ -2,6 +2,7 @@ package main
 
 import (
 	"encoding/json"
+	"runtime/pprof"
 	"flag"
 	"fmt"
 	"os"
@@ -155,6 +156,11 @@ func main() {
 	}
 	if v := os.Getenv("VERIF_DIR"); v != "" {
 		verifDir = v
+	}
+	if pf := os.Getenv("GSE_PROFILE"); pf != "" {
+		f, _ := os.Create(pf)
+		pprof.StartCPUProfile(f)
+		defer pprof.StopCPUProfile()
 	}
 	switch os.Args[1] {
 	case "run":
